@@ -4,6 +4,8 @@ from mirsym import mir, symex, smt
 from mirsym.symex import bvconst, mk_and, mk_not, mk_eq
 from mirsym_run import Q
 from kanirun import H, FAST
+from common import *
+import os
 
 LEVEL = "model_checking"
 EXPLANATION = ("mirsym Mode A over the closures of MDBShardFile::load_all / clean_expired_shards (MIR regenerated from /repo): the "
@@ -31,25 +33,28 @@ def _footer_u64_read(f):
 
 def build_expiry(fns):
     sc = smt.Script("c18_expiry")
-    # delete decision
+    # delete decision: expiry = the footer field the closure reads, grace = the captured parameter, now = the captured clock value
     f, s, paths = _run(fns, r"clean_expired_shards::\{closure#0\}$", "d.")
-    sat_calls = set()
     removed, kept = [], []
     for p in paths:
-        ev = [e for e in p.events if re.search(r"saturating_add$", e[0])]
-        if len(ev) != 1:
-            raise RuntimeError("expected one saturating_add in the delete closure")
-        sat_calls.add(tuple(ev[0][1]))
         (removed if any(re.search(r"fs::remove_file", e[0]) for e in p.events) else kept).append(p)
-    if len(sat_calls) != 1 or not removed or not kept:
-        raise RuntimeError("delete closure shape not recognised (%d sat_add variants, %d removing, %d keeping paths)" % (len(sat_calls), len(removed), len(kept)))
-    d_exp, d_grace = list(sat_calls)[0]
-    d_now = s.debug_val(removed[0], "current_time").t
+    if not removed or not kept:
+        raise RuntimeError("delete closure shape not recognised (%d removing, %d keeping paths)" % (len(removed), len(kept)))
+    dplace = _footer_u64_read(f)
+    pre = removed[0]
+    d_exp = s.load(pre, s.resolve(pre, symex.parse_place(dplace)), "u64").t
+    d_grace = s.debug_val(pre, "expiration_buffer_secs").t
+    d_now = s.debug_val(pre, "current_time").t
+    if len({d_exp, d_grace, d_now}) != 3 or not all(re.match(r"d\.[\w.*#]+$", x) for x in (d_exp, d_grace, d_now)):
+        raise RuntimeError("delete closure inputs not identified as distinct pre-state values: %s" % [d_exp, d_grace, d_now])
     sc.declare(s.decls)
     sum_ = "(bvadd %s %s)" % (d_exp, d_grace)
     satadd = "(ite (bvult %s %s) %s %s)" % (sum_, d_exp, bvconst(2**64 - 1, 64), sum_)
     for i, p in enumerate(removed):
         sc.query("deleted only when expiry+grace (saturating) <= now [path %d]" % i, p.pc + [mk_not("(bvule %s %s)" % (satadd, d_now))])
+    for i, p in enumerate(kept):
+        if p.end == "return":
+            sc.query("a shard whose expiry+grace (saturating) <= now is deleted [path %d]" % i, p.pc + ["(bvule %s %s)" % (satadd, d_now)])
     sc.query("witness: some shard is deleted", ["(or %s)" % " ".join(mk_and(p.pc) for p in removed)], expect="sat", kind="witness")
     sc.query("witness: some shard is kept", ["(or %s)" % " ".join(mk_and(p.pc) for p in kept if p.end == "return")], expect="sat", kind="witness")
     # load decision
@@ -83,6 +88,22 @@ def build_expiry(fns):
 
 
 _FE = ["mdb_shard::shard_file_handle::MDBShardFile::load_all::{closure#0}", "MDBShardFile::clean_expired_shards::{closure#0}"]
+
+
+def replay(model, fnd, prop):
+    env = base_env()
+    env["CARGO_TARGET_DIR"] = os.path.join(BUILD, "replay_target")
+    rc, out = sh(["cargo", "test", "--offline", "--test", "c18_expiry_native"], cwd=os.path.join(VERIF, "replay"), env=env, timeout=2400,
+                 log=os.path.join(LOGS, "replay_c18.log"))
+    path = os.path.join(VERIF, "replay", "tests", "c18_expiry_native.rs")
+    if "test result: FAILED" in out:
+        m = re.search(r"C18 violated: [^\n]*", out)
+        return True, path, m.group(0)[:240] if m else "native replay fails"
+    if re.search(r"test result: ok. [1-9]\d* passed", out):
+        return False, path, "native replay passes: load / delete decisions follow (expiry, now, grace)"
+    return None, path, "native replay inconclusive (rc=%s)" % rc
+
+
 SMT = [Q("c18_expiry", "load / delete decisions of keyed shards as functions of (expiry, now, grace)", "mdb_shard", build_expiry, functions=_FE,
-         bounds="all 64-bit values")]
+         bounds="all 64-bit values", replay=replay)]
 KANI = []
